@@ -5,7 +5,6 @@ import (
 	"strings"
 
 	"github.com/smarthome-go/homescript/v3/homescript/errors"
-	"github.com/smarthome-go/homescript/v3/homescript/lexer/util"
 	"github.com/smarthome-go/homescript/v3/homescript/parser/ast"
 )
 
@@ -308,13 +307,7 @@ type AnalyzedObjectLiteralField struct {
 }
 
 func (self AnalyzedObjectLiteralField) String() string {
-	var key string
-	if !util.IsIdent(self.Key.Ident()) {
-		key = ast.QuoteString(self.Key.Ident())
-	} else {
-		key = self.Key.Ident()
-	}
-	return fmt.Sprintf("%s: %s", key, self.Expression)
+	return fmt.Sprintf("%s: %s", ast.FieldKey(self.Key.Ident()), self.Expression)
 }
 
 //
